@@ -72,7 +72,8 @@ class Ctx:
         if os.environ.get('VERIF_FULL_BUILD') == '1':
             targets = None
         ok, log = coqrun.build(targets=targets)
-        hits = coqrun.forbidden_scan()
+        hits = coqrun.forbidden_scan(targets)
+        self.extra['development_files'] = coqrun.closure(targets) if targets else coqrun.all_v_files()
         if hits:
             self.broken.append('forbidden tokens in the development: ' + '; '.join(hits[:10]))
         if not ok:
